@@ -21,11 +21,12 @@ Theorem C13_render_isolated : forall r steps w c ws,
 Proof. exact render_isolated. Qed.
 Print Assumptions C13_render_isolated.
 
+Local Open Scope nat_scope.
 (** non-vacuity: render 1 interleaved with a failing render 2 and a render 3 that reuses a pooled buffer *)
 Example C13_nonvacuous :
   let steps := [PGet 2 None; PWrite 2 (lit "junk"); PGet 1 (Some 0); PFinish 2 false; PWrite 1 (lit "<p>");
                 PGet 3 (Some 0); PWrite 3 (lit "three"); PWrite 1 (lit "one</p>"); PFinish 3 true; PFinish 1 true] in
-  w_written (pool_run steps world_init) = [(1%nat, lit "<p>one</p>"); (3%nat, lit "three")] /\
-  steps_of 1 steps = PGet 1 (Some 0%nat) :: [PWrite 1 (lit "<p>"); PWrite 1 (lit "one</p>")] ++ [PFinish 1 true].
+  w_written (pool_run steps world_init) = [(1, lit "<p>one</p>"); (3, lit "three")] /\
+  steps_of 1 steps = PGet 1 (Some 0) :: [PWrite 1 (lit "<p>"); PWrite 1 (lit "one</p>")] ++ [PFinish 1 true].
 Proof. split; vm_compute; reflexivity. Qed.
 Print Assumptions C13_nonvacuous.
